@@ -3,7 +3,7 @@
 import os, sys
 sys.path.insert(0, os.path.join(os.path.dirname(os.path.abspath(__file__)), "..", "tools"))
 import nqlib
-from nqlib import Check, run_pipeline, parse_driver_output, standard_verdict, driver_path, kv, shortest, byte_mutations, VERIF, NCPU
+from nqlib import Check, run_pipeline, parse_driver_output, standard_verdict, driver_path, kv, shortest, byte_mutations, sh, VERIF, NCPU
 
 PROP = "C14"
 HARNESS = "harness/c14_bounce.c"
@@ -40,12 +40,7 @@ ASSUME = ["qmail-queue is replaced by a capture of the qmail_open/put/from/to/cl
           "known=C14-strip-exception and are reported as KNOWN-FINDING once the entry is in known_findings.json (VIOLATION until then, or until the patch is applied)"]
 NAME = ("Nq.Bounce (stripvdom, addbounceText, delReport, getcontrols, inject/bounceOf) vs qmail-send.c "
         "stripvdomprepend()/addbounce()/del_dochan()/getcontrols()/injectbounce()")
-PREFIXES = ("P", "I", "C", "D")
-
-
-def is_known(line):
-    """an ORACLE line that reproduces an open entry of known_findings.json (matched on the tag the driver computes from the case)"""
-    return any(kf.get("match") and kf["match"] in line for kf in nqlib.known_findings(PROP))
+PREFIXES = ("P", "I", "C", "D")   # the focused search runs on the first binary; Q cases are replayed with --replay
 
 
 def stdin_case(line):
@@ -63,15 +58,29 @@ def main():
         try:
             h = s.cc(os.path.join(VERIF, HARNESS), os.path.join(s.dir, "h_c14"), link_like="qmail-send",
                      objs_exclude=["qmail.o", "qsutil.o", "control.o"])
+            # second binary: the same harness with the REAL qmail.c (qmail_open/qmail_close: fork, exec, wait) and the scripted
+            # stand-in for qmail-queue of C07 (harness/c07_qq.c) behind QMAILQUEUE; it runs the Q leg only
+            hq = s.cc(os.path.join(VERIF, HARNESS), os.path.join(s.dir, "h_c14q"), link_like="qmail-send",
+                      objs_exclude=["qsutil.o", "control.o", "auto_qmail.o"], extra="-DC14_REALQQ")
+            qq = os.path.join(s.dir, "c07_qq")
+            rc, o = sh("cc -O1 -o %s %s" % (qq, os.path.join(VERIF, "harness", "c07_qq.c")), cwd=s.dir)
+            if rc != 0:
+                raise RuntimeError("c07_qq.c does not compile: " + o[-500:])
+            hq = "QMAILQUEUE=%s %s" % (qq, hq)
             drv = driver_path("drv_c14")
             cmds = []
             corpus = os.path.join(VERIF, "corpus", PROP + ".txt")
+            corpusq = os.path.join(VERIF, "corpus", PROP + "-qq.txt")
             if c.replay:
                 cmds.append("%s - < %s" % (h, c.replay))
+                cmds.append("%s - < %s" % (hq, c.replay))        # Q lines of a replay file are for the second binary
             else:
                 if os.path.exists(corpus):
                     cmds.append("%s - < %s" % (h, corpus))
+                if os.path.exists(corpusq):
+                    cmds.append("%s - < %s" % (hq, corpusq))
                 cmds += ["%s %s %d %d %d" % (h, ARGS[c.tier], c.seed, i, NCPU) for i in range(NCPU)]
+                cmds += ["%s %s %d %d %d" % (hq, ARGS[c.tier], c.seed, i, 4) for i in range(4)]
             outs = run_pipeline(cmds, drv)
             stats, samples, disagree, oracle, errors = parse_driver_output(outs)
 
@@ -84,21 +93,11 @@ def main():
                 o2 = run_pipeline(["%s - < %s" % (h, tf)], drv)
                 st2, _, _, or2, _ = parse_driver_output(o2)
                 c.cov["search_cases"] = st2.get("cases", 0)
-                or2 = [x for x in or2 if not is_known(x)]
                 return shortest(or2) if or2 else None
         except Exception as ex:
             errors.append(str(ex))
     else:
         errors.append("build failed: " + "\n".join(c.notes)[-3000:])
-    # open known findings: the shortest reproducing case goes through Check.violation (prints KNOWN-FINDING once, suppresses exactly
-    # the tagged lines); every other oracle failure goes to the standard verdict, so a known case can never mask another failure
-    known = [x for x in oracle if is_known(x)]
-    oracle = [x for x in oracle if not is_known(x)]
-    if known:
-        k0 = shortest(known)
-        c.violation("property oracle fails on the implementation's output (listed known finding)",
-                    {"failing_case": kv(k0), "raw": k0[:4000], "stdin_case": stdin_case(k0), "cases": len(known)}, found_input=True)
-    c.cov["known_finding_cases"] = len(known)
     c.cov["evaluations"] = int(stats.get("cases", 0))
     c.cov["distinct_nontrivial"] = int(stats.get("distinct_nontrivial", 0))
     c.cov["traces_validated_against_impl"] = max(0, int(stats.get("cases", 0)) - int(stats.get("disagree", 0)))
